@@ -120,6 +120,17 @@ structure Acc where
   tags : List String := []
   nready : Nat := 0
 
+/-- which op of a sequential case the statement checker rejects (for the failure signature) -/
+def firstBad : St → List (Op × Spec.C33.Obs) → Nat → String
+  | _, [], _ => "aggregate-wrong:?"
+  | s, (op, ob) :: rest, i =>
+    if Spec.C33.holdsOn s [(op, ob)] then firstBad ((s.apply op).getD s) rest (i + 1)
+    else match op with
+      | .ready => s!"ready-aggregate-wrong:op#{i}"
+      | .health => s!"health-aggregate-wrong:op#{i}"
+      | .names => s!"ready-names-wrong:op#{i}"
+      | _ => s!"unexpected-answer:op#{i}"
+
 def oracle (obs : List (List String × String)) : Verdict :=
   let acc := obs.foldl (fun (a : Acc) (toks, ans) =>
     if a.bad then a else
@@ -156,7 +167,8 @@ def oracle (obs : List (List String × String)) : Verdict :=
     | none => 0
     | some (_, h) => (h.filter fun o => o.kind == .ready).length
   { ok := seqOK && concOK, nontrivial := acc.nready + nReadyConc > 0, tags := acc.tags,
-    reason := if !seqOK then "aggregate-wrong:sequential" else if !concOK then "interval-semantics-violated:concurrent" else "" }
+    reason := if !seqOK then firstBad {} acc.pairs 0
+              else if !concOK then "interval-semantics-violated:concurrent-history" else "" }
 
 def driver : Driver St := { init := {}, step := step, oracle := oracle }
 
